@@ -344,8 +344,10 @@ def gen(rng, tier, i):
                                                  0x00800000, 0x7F7FFFFF, 0x42F00000, rng.randrange(2 ** 32), rng.randrange(2 ** 32)]))
     if r < 0.06:
         return dict(claim="int", bytes=[rng.choice([0, 255, 128, 127, rng.randrange(256)]) for _ in range(4)])
-    if r < 0.18:
+    if r < 0.16:
         return gen_seq(rng, tier)
+    if r < 0.27:
+        return gen_sess(rng, tier)
     case = gen_file(rng, tier)
     case["via"] = rng.choice(["read", "read", "read", "read_file_str", "read_file_path"])
     return case
@@ -383,6 +385,44 @@ def gen_seq(rng, tier):
             st["levels"] = rng.sample(range(3), 3)
         steps.append(st)
     return dict(claim="seq", files=files, steps=steps)
+
+
+EDIT_ROUTES = ["hits_offset_add", "holds_length_mul", "holds_offset_add", "stack_offset_mul", "set_stack_offset_add", "bpms_bpm_set",
+               "bpms_offset_add", "df_iloc", "df_values", "df_assign", "df_at", "column_set", "drop_rows", "sort_reverse",
+               "replace_lists", "objs_dict", "item_setattr", "header_lists", "header_attrs", "maps_list"]
+SPELLINGS = ["abs", "path", "dotted", "updown", "rel", "symlink", "dirlink", "bytes"]
+
+
+def gen_sess(rng, tier):
+    """a session in ONE process: 1-3 files written under 1-2 paths of a private directory; the paths are read two or more
+    times through read_file (the same path spelled in different ways: absolute str, pathlib.Path, with /./ and /../
+    segments, relative to the working directory, through a symlink to the file / to the directory) and read(bytes);
+    between the reads EVERY earlier result is edited in place through the ordinary editing routes, and files are
+    rewritten (other content, the same content, other content of the same size with the old modification time).
+    Every read is judged, right after the call, against the model/specification of the bytes the path held then."""
+    k = rng.choice([1, 2, 2, 3])
+    files = [gen_file(rng, "quick", small=True) for _ in range(k)]
+    for f in files:
+        f.pop("opts", None) if rng.random() < 0.5 else None
+    if k >= 2 and rng.random() < 0.5:
+        # same size, other content: only numbers differ (header tempo / a note's position inside its package)
+        files[1] = dict(files[0], hdr=dict(files[0]["hdr"], bpm=gen_bpm(rng), song_id=files[0]["hdr"]["song_id"]))
+    npaths = rng.choice([1, 1, 2])
+    steps = [dict(op="write", p=0, f=0)]
+    if npaths == 2:
+        steps.append(dict(op="write", p=1, f=rng.randrange(k)))
+    nreads = rng.choice([2, 3, 3, 4, 5])
+    for i in range(nreads):
+        if i > 0:
+            q = rng.random()
+            if q < 0.3:
+                steps.append(dict(op="write", p=rng.randrange(npaths), f=rng.randrange(k), keep_mtime=rng.random() < 0.5))
+        edits = []
+        if i > 0 and rng.random() < 0.9:
+            for _ in range(rng.choice([1, 2, 3, 5])):
+                edits.append([rng.choice(EDIT_ROUTES), rng.choice([1000.0, 2.0, 0.5, -250.0, 1.0, 3.0])])
+        steps.append(dict(op="read", p=rng.randrange(npaths), via=rng.choice(SPELLINGS), edits=edits))
+    return dict(claim="sess", files=files, steps=steps)
 
 
 def gen_file(rng, tier, small=False):
@@ -526,6 +566,18 @@ def corpus():
     c.append(dict(claim="read", hdr=_hdr(100.0), levels=[[dict(m=0, ch=2, ev=[HD]), dict(m=1, ch=1, ev=[NAN]), dict(m=2, ch=2, ev=[TL]),
                                                           dict(m=2, ch=1, ev=[INF]), dict(m=3, ch=4, ev=[H, H])], [], []], tail=[],
                   via="read_file_str"))
+    # sessions: the same path read again after the earlier result was edited in place; other spellings; a rewrite in between
+    c.append(dict(claim="sess", files=[two], steps=[dict(op="write", p=0, f=0), dict(op="read", p=0, via="abs", edits=[]),
+                                                    dict(op="read", p=0, via="abs", edits=[["hits_offset_add", 1000.0]]),
+                                                    dict(op="read", p=0, via="rel", edits=[["holds_length_mul", 2.0], ["stack_offset_mul", 0.5]]),
+                                                    dict(op="read", p=0, via="bytes", edits=[["bpms_bpm_set", 3.0], ["header_lists", 1.0]])]))
+    c.append(dict(claim="sess", files=[two, other], steps=[dict(op="write", p=0, f=0), dict(op="write", p=1, f=1),
+                                                           dict(op="read", p=0, via="path", edits=[]), dict(op="read", p=1, via="symlink", edits=[["maps_list", 1.0]]),
+                                                           dict(op="write", p=0, f=1, keep_mtime=True),
+                                                           dict(op="read", p=0, via="dotted", edits=[["df_values", 2.0], ["header_attrs", 1.0]]),
+                                                           dict(op="read", p=1, via="updown", edits=[["replace_lists", 1.0], ["item_setattr", 5.0]]),
+                                                           dict(op="write", p=0, f=0),
+                                                           dict(op="read", p=0, via="dirlink", edits=[["drop_rows", 1.0], ["df_assign", -1.0]])]))
     c.append(dict(claim="f32", bits=0x42F00000))
     c.append(dict(claim="f32", bits=0x80000000))
     c.append(dict(claim="f32", bits=0x807FFFFF))
@@ -555,6 +607,26 @@ def valid(case):
                                            and len(set(lv)) == len(lv)):
                     return False
             return True
+        if cl == "sess":
+            files, steps = case["files"], case["steps"]
+            if not files or not steps or len(steps) > 16 or not all(valid_file(f) for f in files):
+                return False
+            written = set()
+            for st in steps:
+                if st["op"] == "write":
+                    if not (st["p"] in (0, 1, 2) and isinstance(st["f"], int) and 0 <= st["f"] < len(files)):
+                        return False
+                    written.add(st["p"])
+                elif st["op"] == "read":
+                    if not (st["p"] in written and st.get("via", "abs") in SPELLINGS):
+                        return False
+                    for e in st.get("edits") or []:
+                        if not (isinstance(e, list) and len(e) == 2 and e[0] in EDIT_ROUTES and isinstance(e[1], (int, float))
+                                and math.isfinite(e[1])):
+                            return False
+                else:
+                    return False
+            return any(st["op"] == "read" for st in steps)
         return case.get("via", "read") in VIAS and valid_file(case)
     except Exception:
         return False
@@ -859,6 +931,8 @@ def run(case, drv):
                     detail={} if good else dict(model=j, bytes=case["bytes"]))
     if cl == "seq":
         return run_seq(case, drv)
+    if cl == "sess":
+        return run_sess(case, drv)
     return run_read(case, drv)
 
 
@@ -1094,6 +1168,235 @@ def run_seq_inproc(case, drv):
                 boundary=False, detail=detail)
 
 
+
+
+def apply_edit(ms, route, arg):
+    """one in-place edit of a result of an earlier read, through an ordinary editing route of the library / pandas.
+    Errors of the edit itself (empty lists, read-only views) are of no interest here."""
+    import numpy as np
+    try:
+        with warnings.catch_warnings():
+            warnings.simplefilter("ignore")
+            maps = list(ms.maps)
+            if route == "hits_offset_add":
+                for m in maps:
+                    m.hits.offset += arg
+            elif route == "holds_length_mul":
+                for m in maps:
+                    m.holds.length *= arg
+            elif route == "holds_offset_add":
+                for m in maps:
+                    m.holds.offset += arg
+            elif route == "stack_offset_mul":
+                for m in maps:
+                    st = m.stack()
+                    st.offset *= arg
+            elif route == "set_stack_offset_add":
+                st = ms.stack()
+                st.offset += arg
+            elif route == "bpms_bpm_set":
+                for m in maps:
+                    m.bpms.bpm = arg
+            elif route == "bpms_offset_add":
+                for m in maps:
+                    m.bpms.offset += arg
+            elif route == "df_iloc":
+                for m in maps:
+                    for l in (m.hits, m.holds, m.bpms):
+                        l.df.iloc[:, l.df.columns.get_loc("offset")] = arg
+            elif route == "df_values":
+                for m in maps:
+                    for l in (m.hits, m.holds, m.bpms):
+                        v = l.df["offset"].values
+                        v[:] = np.asarray(arg).astype(v.dtype)
+            elif route == "df_assign":
+                for m in maps:
+                    for l in (m.hits, m.holds, m.bpms):
+                        l.df["offset"] = arg
+            elif route == "df_at":
+                for m in maps:
+                    for l in (m.hits, m.holds, m.bpms):
+                        if len(l.df):
+                            l.df.at[l.df.index[0], "offset"] = arg
+            elif route == "column_set":
+                for m in maps:
+                    m.hits.column = 0
+                    m.holds.column += 1
+            elif route == "drop_rows":
+                for m in maps:
+                    for l in (m.hits, m.holds, m.bpms):
+                        l.df.drop(l.df.index[:1], inplace=True)
+            elif route == "sort_reverse":
+                for m in maps:
+                    for l in (m.hits, m.holds, m.bpms):
+                        l.df.sort_values("offset", ascending=False, inplace=True)
+            elif route == "replace_lists":
+                for m in maps:
+                    m.hits = type(m.hits)([])
+                    m.bpms = type(m.bpms)([])
+            elif route == "objs_dict":
+                for m in maps:
+                    m.objs["holds"] = type(m.holds)([])
+            elif route == "item_setattr":
+                for m in maps:
+                    for l in (m.hits, m.holds, m.bpms):
+                        if len(l.df):
+                            it = l[0]
+                            it.offset = arg
+            elif route == "header_lists":
+                for a in ("level", "package_count", "event_count", "note_count", "measure_count", "duration", "note_offset"):
+                    l = getattr(ms, a)
+                    if l:
+                        l[0] = int(arg) + 99
+                    l.reverse()
+                    l.append(5)
+            elif route == "header_attrs":
+                ms.title = "edited"
+                ms.artist = ""
+                ms.bpm = float(arg)
+                ms.song_id = -5
+                ms.genre = 10
+                ms.old_genre = b"x"
+            elif route == "maps_list":
+                if arg >= 2:
+                    ms.maps.clear()
+                elif len(ms.maps) > 1:
+                    ms.maps.reverse()
+                    ms.maps.pop()
+    except Exception:
+        pass
+
+
+def spell(d, name, via, linkdir):
+    """the path of file `name` in directory `d`, spelled as `via` says (all spellings denote the same file)"""
+    import os
+    from pathlib import Path
+    full = os.path.join(d, name)
+    if via == "path":
+        return Path(full)
+    if via == "dotted":
+        return os.path.join(d, ".", name)
+    if via == "updown":
+        return os.path.join(d, "..", os.path.basename(d), name)
+    if via == "rel":
+        return os.path.relpath(full)
+    if via == "symlink":
+        ln = os.path.join(d, "ln-" + name)
+        if not os.path.islink(ln):
+            os.symlink(full, ln)
+        return ln
+    if via == "dirlink":
+        return Path(os.path.join(linkdir, name))
+    return full
+
+
+def run_sess(case, drv):
+    """always judged in a fresh process: the session itself is the only history"""
+    if _inproc():
+        return run_sess_inproc(case, drv)
+    return fresh(case)
+
+
+def run_sess_inproc(case, drv):
+    """a session of writes, reads and in-place edits of earlier results in one process (see `gen_sess`).  What a read
+    returns must depend on the bytes it is given only: every result is taken off the returned object right after the
+    call and judged against the model/specification of the bytes the path held at that moment; then all earlier
+    results are edited in place before the next read.  Results that were never edited are re-read off their objects at
+    the end: they must still be what they were."""
+    import os
+    import shutil
+    import tempfile
+    from reamber.o2jam.O2JMapSet import O2JMapSet
+    _quiet()
+    files = case["files"]
+    datas = [build(f) for f in files]
+    drvres = {}
+    d = tempfile.mkdtemp(prefix="c07-sess-", dir="/tmp")
+    linkdir = d + "-ln"
+    os.symlink(d, linkdir)
+    held = {}           # path index -> file index whose bytes it holds now
+    results = []        # (step index, file index, mapset or None, snapshot, edited?)
+    ok, agree, dom, maxdev = True, True, True, 0.0
+    tags, detail = [], {}
+    nreads = 0
+    try:
+        for k, st in enumerate(case["steps"]):
+            name = "f%d.ojn" % st["p"]
+            full = os.path.join(d, name)
+            if st["op"] == "write":
+                old = os.stat(full) if os.path.exists(full) else None
+                with open(full, "wb") as f:
+                    f.write(datas[st["f"]])
+                if old is not None and st.get("keep_mtime"):
+                    os.utime(full, ns=(old.st_atime_ns, old.st_mtime_ns))
+                    tags.append("rewrite-keeps-mtime" + ("-and-size" if old.st_size == len(datas[st["f"]]) else ""))
+                if old is not None:
+                    tags.append("rewritten-same" if held.get(st["p"]) == st["f"] else "rewritten-other")
+                held[st["p"]] = st["f"]
+                continue
+            # edits of every earlier result, then the read
+            for e in st.get("edits") or []:
+                for r in results:
+                    if r[2] is not None:
+                        apply_edit(r[2], e[0], e[1])
+                        r[4] = True
+                tags.append("edit:" + e[0]) if ("edit:" + e[0]) not in tags else None
+            i = held[st["p"]]
+            via = st.get("via", "abs")
+            try:
+                with warnings.catch_warnings():
+                    warnings.simplefilter("ignore")
+                    if via == "bytes":
+                        with open(full, "rb") as f:
+                            b = f.read()
+                        obj = ("ok", O2JMapSet.read(b))
+                    else:
+                        obj = ("ok", O2JMapSet.read_file(spell(d, name, via, linkdir)))
+            except Exception as e:
+                obj = ("err", err_class(e), repr(e)[:200])
+            if obj[0] == "ok":
+                try:
+                    hdr, lv = extract(obj[1])
+                    impl = ("ok", hdr, lv)
+                except Exception as e:
+                    impl = ("err", err_class(e), repr(e)[:200])
+            else:
+                impl = obj
+            if i not in drvres:
+                drvres[i] = drv.call("c07.run", b=list(datas[i]))
+            j = judge(impl, drvres[i])
+            nreads += 1
+            if any(r[1] == i for r in results):
+                tags.append("same-bytes-again")
+            results.append([k, i, obj[1] if obj[0] == "ok" else None, impl, False])
+            ok, agree, dom = ok and j["ok"], agree and j["agree"], dom and j["dom"]
+            maxdev = max(maxdev, j["maxdev"])
+            tags += [t for t in j["tags"] if t not in tags]
+            if ("spell:" + via) not in tags:
+                tags.append("spell:" + via)
+            if not (j["ok"] and j["agree"]):
+                detail["step%d(read #%d of path %d = file %d, %s)" % (k, nreads, st["p"], i, via)] = j["detail"]
+        # results never edited must not have changed
+        for r in results:
+            if r[2] is not None and not r[4] and r[3][0] == "ok":
+                try:
+                    hdr, lv = extract(r[2])
+                    now = ("ok", hdr, lv)
+                except Exception as e:
+                    now = ("err", err_class(e), repr(e)[:200])
+                if repr(now) != repr(r[3]):
+                    ok = False
+                    detail["step%d-later" % r[0]] = dict(note="the result of this read changed after later calls although it was never edited",
+                                                         before=_short(r[3]), after=_short(now))
+    finally:
+        try:
+            os.remove(linkdir)
+        except OSError:
+            pass
+        shutil.rmtree(d, ignore_errors=True)
+    tags = sorted(set(tags))
+    return dict(claim="sess", ok=ok, agree=agree, dom=dom, kf=None, tags=tags + ["sess%d" % min(nreads, 5)], nontrivial=nreads >= 2,
+                maxdev=maxdev, boundary=False, detail=detail)
 
 
 def _short(x, n=1800):
